@@ -103,8 +103,64 @@ def doc_cases():
     return None
 
 
+LOOKAHEAD = [
+    ["integer :: first; real :: second; logical :: third", "!! doc of the third one"],
+    ["a = 1; b = 2; c = 3; d = 4", "e = 5"],
+    ["x = 'p;q'; y = \"r;s\"; z = 3; w = 4"],
+    ["a = 1; b = &", "  2; c = 3", "d = 4; e = 5; f = 6"],
+]
+
+
+def lookahead_cases():
+    """the parser reads one statement ahead after every declaration (read_docstring) and hands it back with pass_back(): the stream seen through
+    next() + pass_back() must be the plain stream"""
+    rd = loader.import_repo("ford.reader")
+    for lines in LOOKAHEAD:
+        with realrun.project_dir({"t.f90": "\n".join(lines) + "\n"}) as d:
+            path = os.path.join(d, "t.f90")
+            plain = list(rd.FortranReader(path, docmark="!"))
+            r = rd.FortranReader(path, docmark="!")
+            seen = []
+            try:
+                while True:
+                    seen.append(next(r))
+                    try:
+                        ahead = next(r)
+                    except StopIteration:
+                        break
+                    r.pass_back(ahead)
+            except StopIteration:
+                pass
+            except Exception as e:
+                seen = f"{type(e).__name__}: {e}"
+        if seen != plain:
+            return {"confirmed": True, "input": lines, "actual": seen, "expected": plain,
+                    "how": "real FortranReader: next() followed by a one-statement look-ahead handed back with pass_back(), vs plain iteration"}
+    return None
+
+
+LITERALS = ["''", "'a'", "'ab, c'", "'hello, world'", '"x"', '"it\'s, so"', "'a, b'", "'6\" wide, 2\" deep'", "'call helper(1), go'", '"a""b, c"', "'xxxx'", "'!;&'"]
+
+
+def parser_literal_cases():
+    """two character literals in one statement, at every distance the pool gives: the parser (placeholder masking in FortranContainer.__init__, re-insertion in
+    line_to_variables) must give back both initial values verbatim and declare nothing else"""
+    for l1 in LITERALS:
+        for l2 in LITERALS:
+            src = f"module m\n  character(len=*), parameter :: g = {l1}, s = {l2}\n  integer :: after\nend module m\n"
+            try:
+                f = realrun.parse_source(src)
+                got = [(v.name, v.initial) for v in f.modules[0].variables]
+            except Exception as e:
+                got = f"{type(e).__name__}: {e}"
+            exp = [("g", l1), ("s", l2), ("after", None)]
+            if got != exp:
+                return {"confirmed": True, "input": {"source": src}, "actual": got, "expected": exp, "how": "real parser: (name, initial value) of the declared variables"}
+    return None
+
+
 def search(seed=0, nrandom=400, randlen=5):
-    hit = doc_cases()
+    hit = doc_cases() or lookahead_cases() or parser_literal_cases()
     if hit:
         return hit
     for seq in sequences(seed, nrandom=nrandom, randlen=randlen):
